@@ -435,6 +435,28 @@ func TestVerifC02(t *testing.T) {
 			}
 			return cfgs, fmt.Sprintf("every built-in QUICID x every one-knob deviation (%d knobs; in thorough every pair except two layout knobs, which contradict each other) x dial histories on ONE reused spec value (3 sequential dials; 2 overlapping dials; second UTransport sharing the spec), default server, no faults", len(c02Knobs))
 		}),
+		c02Part(t, "knobs-x-servers", func(e explore.Env) ([]c02Config, string) {
+			// every knob also against the servers that make the client re-create its Initial
+			// space (Retry) or the whole connection (Version Negotiation): a knob that works on a
+			// first flight may be mis-applied on the second
+			servers := []int{1, 4}
+			hist := []string{"seq3"}
+			if e.Thorough() {
+				servers = []int{1, 2, 3, 4, 5}
+				hist = []string{"seq3", "overlap"}
+			}
+			var cfgs []c02Config
+			for _, b := range c02SpecBases() {
+				for k := 1; k < len(c02Knobs); k++ {
+					for _, s := range servers {
+						for _, h := range hist {
+							cfgs = append(cfgs, c02Config{Base: b, Knobs: []int{k}, Server: s, History: h, Seed: seed(e)})
+						}
+					}
+				}
+			}
+			return cfgs, fmt.Sprintf("every built-in QUICID x every one-knob deviation (%d knobs) x servers %v of {default, retry, v2-preferred, few-streams, v2-only, v2-only-retry} x dial histories %v on ONE reused spec value", len(c02Knobs)-1, servers, hist)
+		}),
 		c02Part(t, "servers-x-bases", func(e explore.Env) ([]c02Config, string) {
 			var cfgs []c02Config
 			for b := range c02Bases {
